@@ -587,9 +587,14 @@ def fixed_direct_cases():
     return out
 
 
-def order_cases(direct, cli):
-    """expected-slow cases first (CLI documentation loops, algebraic tuples with many goals), then CLI cases spread
-    evenly among the direct ones, so that a watchdog timeout never sits at the tail of a run"""
+def order_cases(direct, cli, tier="quick"):
+    """quick: expected-slow cases first (CLI documentation loops, algebraic tuples), then CLI cases spread evenly among
+    the direct ones, so that a watchdog timeout never sits at the tail of a run; thorough: a fixed shuffle, so that a
+    deadline cut (few workers / loaded machine) removes cases of every kind proportionally"""
+    if tier != "quick":
+        allc = list(direct) + list(cli)
+        random.Random(20240607).shuffle(allc)
+        return allc
     def weight(c):
         if c["kind"] == "cli":
             fs = c.get("features", [])
@@ -860,16 +865,34 @@ def poly_to_sympy(poly, names, fld):
     return e
 
 
-def ideal_membership(q_exprs, basis_exprs, names, fld):
-    """[remainder == 0 for q in q_exprs] modulo the ideal generated by basis_exprs (grevlex Groebner basis, sympy)"""
+def ideal_membership(q_exprs, basis_polys, names, fld):
+    """[remainder == 0 for q in q_exprs] modulo the ideal generated by basis_polys (own representation, coefficients in
+    fld) via a grevlex Groebner basis (sympy).  Irrational coefficients a + b*sqrt(d) are written a + b*w with a new
+    indeterminate w and the generator w**2 - d, so that sympy only ever computes over QQ:
+    Q(sqrt d)[x] = Q[w, x]/(w**2 - d), hence a rational q lies in the ideal iff it lies in <basis(w), w**2 - d>."""
     import sympy as sp
     gens = [sp.Symbol(nm) for nm in names]
-    if not basis_exprs:
+    if not basis_polys:
         return [sp.expand(q) == 0 for q in q_exprs], None
-    kw = {"order": "grevlex"}
-    if any(not c.is_Rational for b in basis_exprs for c in sp.Poly(sp.sympify(b), *gens).coeffs()):
-        kw["extension"] = True
-    G = sp.groebner(list(basis_exprs), *gens, **kw)
+    w = sp.Symbol("w_sqrt_d")
+    irrational = any(c[1] != 0 for poly in basis_polys for _, c in poly)
+    exprs = []
+    for poly in basis_polys:
+        e = sp.Integer(0)
+        for exps, c in poly:
+            t = sp.Rational(c[0].numerator, c[0].denominator)
+            if c[1] != 0:
+                t = t + sp.Rational(c[1].numerator, c[1].denominator) * w
+            for g, k in zip(gens, exps):
+                if k:
+                    t = t * g ** k
+            e += t
+        exprs.append(e)
+    allgens = gens
+    if irrational:
+        exprs.append(w ** 2 - fld.d)
+        allgens = [w] + gens
+    G = sp.groebner(exprs, *allgens, order="grevlex", domain=sp.QQ)
     res = []
     for q in q_exprs:
         _, r = G.reduce(sp.expand(q))
